@@ -61,9 +61,28 @@ def gen_case(rng, inside_imacro=False):
         if rng.random() < 0.3:
             use = G.climb([("var", rng.choice(ips)), "+", use])
         args = [rng.choice([("num", rng.choice([0, 1, 5, 300])), ("lbl", rng.choice(labels))]) for _ in ips]
-        defs = defs + [("defi", "im", ips, [("op", "push32", use)])]
-        push = [("macro", "im", args)]
+        body = [("op", "push32", use)]
         vals = {p_: ({"la": 0, "lb": 2}[a[1]] if a[0] == "lbl" else a[1]) for p_, a in zip(ips, args)}
+        if rng.random() < 0.5:
+            # a label local to the instruction macro, named like an outer label: inside the body (also inside the
+            # arguments of the invocation) the name means the local label; in expression-macro bodies and in the
+            # arguments of %im it still means the outer one
+            body = [("label", "la"), ("op", "jumpdest", None)] + body
+
+            def local(e):
+                if e[0] == "lbl":
+                    return ("lbl", "la#local") if e[1] == "la" else e
+                if e[0] == "macro":
+                    return ("macro", e[1], [local(a) for a in e[2]])
+                if e[0] == "paren":
+                    return ("paren", local(e[1]))
+                if e[0] in ("num", "var"):
+                    return e
+                return (e[0], local(e[1]), local(e[2]))
+            vals["#labels"] = {"la": 0, "lb": 2, "la#local": 3}
+            vals["#use"] = local(use)
+        defs = defs + [("defi", "im", ips, body)]
+        push = [("macro", "im", args)]
     where = rng.random()
     if where < 0.4:
         prog = defs + prog + push
@@ -80,7 +99,10 @@ def oracle(c, ans):
     if k in ("panic", "crash"):
         return []
     try:
-        v = G.ref_eval(c["use"], c.get("labels", {"la": 0, "lb": 2}), c["emacros"], c.get("vars"))
+        vars_ = dict(c["vars"]) if c.get("vars") else None
+        labels = (vars_.pop("#labels", None) if vars_ else None) or c.get("labels", {"la": 0, "lb": 2})
+        use = (vars_.pop("#use", None) if vars_ else None) or c["use"]
+        v = G.ref_eval(use, labels, c["emacros"], vars_)
         want = "ok" if 0 <= v < 2 ** 256 else ("ExpressionNegative" if v < 0 else "ExpressionTooLarge")
     except G.EvalError as e:
         v = None
